@@ -6,7 +6,7 @@
    (gen_cross = model_cross).  Coordinates are exact rationals. *)
 From Coq Require Import String.
 From Coq Require Import ZArith QArith List Bool.
-From Verif Require Import Model.C15 Proofs.C15 Proofs.C15_sweep Proofs.C15_persist Proofs.C15_decimal Gen.PnpolyGen Bridge.C15_bridge.
+From Verif Require Import Model.C15 Proofs.C15 Proofs.C15_sweep Proofs.C15_copy Proofs.C15_persist Proofs.C15_decimal Gen.PnpolyGen Bridge.C15_bridge.
 Import ListNotations.
 Open Scope Q_scope.
 
@@ -74,6 +74,36 @@ Theorem C15_invert_complement :
          /\ nth_error (gen_filter true poly pts) k = Some (negb (gen_pip poly p)).
 Proof. exact gen_invert_complement. Qed.
 Print Assumptions C15_invert_complement.
+
+(* PolygonFilter.copy(invert=True) classifies every point as the complement of
+   its source, for every source filter (inverted or not), every registry state
+   and all points; copy(invert=False) classifies like the source. *)
+Theorem C15_copy_invert_complement :
+  forall (f : pfilter Q) (r : registry) (pts : list pt),
+    gen_apply (fst (pf_copy f true r)) pts = map negb (gen_apply f pts)
+    /\ gen_apply (fst (pf_copy f false r)) pts = gen_apply f pts.
+Proof. exact gen_copy_invert_complement. Qed.
+Print Assumptions C15_copy_invert_complement.
+
+(* Inverting twice restores classification, inversion flag, axes, name, points. *)
+Theorem C15_copy_invert_involution :
+  forall (f : pfilter Q) (r r' : registry) (pts : list pt),
+    let g := fst (pf_copy (fst (pf_copy f true r)) true r') in
+    gen_apply g pts = gen_apply f pts
+    /\ f_inv Q g = f_inv Q f /\ f_ax Q g = f_ax Q f /\ f_ay Q g = f_ay Q f
+    /\ f_name Q g = f_name Q f /\ f_pts Q g = f_pts Q f.
+Proof. exact gen_copy_invert_involution. Qed.
+Print Assumptions C15_copy_invert_involution.
+
+(* The copy is registered under an identifier no instance has. *)
+Theorem C15_copy_new_id :
+  forall (F : Type) (f : pfilter F) (b : bool) (r : registry),
+    (forall i, In i (fst r) -> (i < snd r)%Z) ->
+    let '(g, r') := pf_copy f b r in
+    ~ In (f_id F g) (fst r) /\ fst r' = fst r ++ [f_id F g]
+    /\ (forall i, In i (fst r') -> (i < snd r')%Z).
+Proof. exact @copy_new_id. Qed.
+Print Assumptions C15_copy_new_id.
 
 (* Complete finite sweep (evaluated over Z, transferred by inject_Z): every
    triangle with vertices on the 4x4 grid and every quadrilateral on the 3x3
